@@ -181,22 +181,27 @@ def step (st : St) (j : Json) : St × List String :=
   -- headers
   | "signjws" =>
     let h := parseHeaders j
+    -- in-memory signer with a stated key id: ITS guard decides (memHolds); else the harness says whether the key exists
+    let found := if jStr j "via" == "memory" && jHas j "memKeyId" then memHolds (jStr j "memKeyId") (jStr j "kid") else jBool j "found"
     let r := match jStr j "via" with
       | "pkg" => signJWSHeaders (dedup h)
-      | _ => storeSignJWSHeaders (jBool j "found") h (jStr j "kid")
+      | _ => storeSignJWSHeaders found h (jStr j "kid")
     let au := match jStr j "via" with
       | "pkg" => signAudit false "" "" (dedup h)
-      | _ => storeSignAudit false "" "" (jBool j "found") h (jStr j "kid")
-    (st, [s!"signjws {jStr j "via"} " ++ showHdr r ++ (match au with | some a => showAudit a | none => "")])
+      | _ => storeSignAudit false "" "" found h (jStr j "kid")
+    let vk := match r with | .ok _ => (if jHas j "memKeyId" then " vk=own" else "") | _ => ""
+    (st, [s!"signjws {jStr j "via"} " ++ showHdr r ++ vk ++ (match au with | some a => showAudit a | none => "")])
   | "signjwt" =>
     let h := parseHeaders j
+    let found := if jStr j "via" == "memory" && jHas j "memKeyId" then memHolds (jStr j "memKeyId") (jStr j "kid") else jBool j "found"
     let r := match jStr j "via" with
       | "pkg" => signJWTHeaders (dedup h)
-      | _ => storeSignJWTHeaders (jBool j "found") h (jStr j "kid")
+      | _ => storeSignJWTHeaders found h (jStr j "kid")
     let au := match jStr j "via" with
       | "pkg" => signAudit true "me" "%!s(<nil>)" (dedup h)
-      | _ => storeSignAudit true "me" "%!s(<nil>)" (jBool j "found") h (jStr j "kid")
-    (st, [s!"signjwt {jStr j "via"} " ++ showHdr r ++ (match au with | some a => showAudit a | none => "")])
+      | _ => storeSignAudit true "me" "%!s(<nil>)" found h (jStr j "kid")
+    let vk := match r with | .ok _ => (if jHas j "memKeyId" then " vk=own" else "") | _ => ""
+    (st, [s!"signjwt {jStr j "via"} " ++ showHdr r ++ vk ++ (match au with | some a => showAudit a | none => "")])
   | "jwkclass" =>
     let rt := jStr j "raw"
     (st, [s!"jwkclass {jStr j "id"} dpop-private={dpopJwkIsPrivate rt} didjwk={didJwkOutcome rt}"])
